@@ -177,7 +177,7 @@ func (e *env) prepare(rt *root) bool {
 		// the start position of the played history must itself be valid (the stream's constructive
 		// sampler also emits positions the Lean `valid` rejects, e.g. a castling right without its rook)
 		a0 := e.bm.Batch([]string{"fen " + rt.fen, "valid"})
-		if !strings.HasPrefix(a0[0], "ok") || len(a0[1]) != 2 || a0[1][0] != '1' {
+		if !strings.HasPrefix(a0[0], "ok") || len(a0[1]) < 2 || a0[1][0] != '1' {
 			return false
 		}
 	}
@@ -187,7 +187,7 @@ func (e *env) prepare(rt *root) bool {
 	}
 	rt.key = b.FEN()
 	ans := e.bm.Batch([]string{"fen " + rt.key, "valid", "spec"})
-	if !strings.HasPrefix(ans[0], "ok") || len(ans[1]) != 2 || ans[1][0] != '1' {
+	if !strings.HasPrefix(ans[0], "ok") || len(ans[1]) < 2 || ans[1][0] != '1' {
 		return false
 	}
 	rt.spec = nil
